@@ -31,6 +31,7 @@
 import LibfiberVerif.Core.Sys
 import LibfiberVerif.Core.Event
 import LibfiberVerif.Driver
+import LibfiberVerif.Gen.IoDecisions
 
 namespace LibfiberVerif.IoShim
 
@@ -82,16 +83,32 @@ def currentDecisions : Decisions :=
   { blockNeedsBoth := false, acceptLoops := false, boundsChecked := false, errnoOnClosed := false,
     readTriesFirst := false, fcntlMask := false, ctlChecked := false, closeUnderLock := false }
 
-/-- everything repaired -/
+/-- the tree after the five `fix:` commits (F-C08a, b, c, d, h); e, f, j are known findings -/
 def fixedDecisions : Decisions :=
   { blockNeedsBoth := true, acceptLoops := true, boundsChecked := true, errnoOnClosed := true,
+    readTriesFirst := false, fcntlMask := false, ctlChecked := true, closeUnderLock := false }
+
+/-- every candidate fix applied (docs/fix-C08{e,f,j}.diff on top) -/
+def allFixedDecisions : Decisions :=
+  { blockNeedsBoth := true, acceptLoops := true, boundsChecked := true, errnoOnClosed := true,
     readTriesFirst := true, fcntlMask := true, ctlChecked := true, closeUnderLock := true }
+
+/-- what the CURRENT source implements (regenerated by extract/io_extract.py on every run) -/
+def codeDecisions : Decisions :=
+  { blockNeedsBoth := Gen.Io.blockNeedsBoth, acceptLoops := Gen.Io.acceptLoops,
+    boundsChecked := Gen.Io.boundsChecked, errnoOnClosed := Gen.Io.errnoOnClosed,
+    readTriesFirst := Gen.Io.readTriesFirst, fcntlMask := Gen.Io.fcntlMask,
+    ctlChecked := Gen.Io.ctlChecked, closeUnderLock := Gen.Io.closeUnderLock }
 
 /-- result of a libc call: a non-negative value or −1 with an errno -/
 inductive Res
   | ok (n : Nat)
   | err (e : Nat)
   deriving DecidableEq, Repr, Inhabited
+
+def Res.isErr : Res → Bool
+  | .err _ => true
+  | .ok _ => false
 
 inductive Op
   | read | readv | recv | recvfrom | recvmsg
@@ -528,8 +545,7 @@ def step (D : Decisions) (s : St) : Ev → Option St
       | .ok _ => none
     | .soErr c =>
       -- getsockopt(SO_ERROR) is not in the log: 0, or −1 with the pending error
-      if op = c.op ∧ r ≠ .ok 0 ∧ (match r with | .ok _ => false | .err _ => true) = false then none
-      else if op = c.op then some { s with pc := upd s.pc f .idle } else none
+      if op = c.op ∧ (r = .ok 0 ∨ r.isErr = true) then some { s with pc := upd s.pc f .idle } else none
     | _ => none
   -- ------------------------------------------------------------------ E layer: the spinlock
   | .lkTake a fd old =>
@@ -551,7 +567,7 @@ def step (D : Decisions) (s : St) : Ev → Option St
         else none
       else some s
     | none => none
-  | .ulLoad _ fd v => if v = s.ticket fd then some s else none
+  | .ulLoad _ fd v => if v = s.ticket fd ∧ s.sec fd ≠ .free then some s else none
   | .ulStore a fd v =>
     if v ≠ s.ticket fd + 1 then none else
     match s.sec fd with
@@ -577,6 +593,8 @@ def step (D : Decisions) (s : St) : Ev → Option St
     if v ≠ s.events fd then none else
     match s.sec fd with
     | .w1 b bit => if a = b then some { s with sec := updI s.sec fd (.w2 a bit v) } else none
+    -- `prev_events = info->events` and the read of `info->events |= …` are two loads for EPOLLOUT
+    | .w2 b _ _ => if a = b then some s else none
     | .w3 b prev => if a = b then some { s with sec := updI s.sec fd (.w4 a prev) } else none
     | .p1 b => if a = b then some { s with sec := updI s.sec fd (.p2 a v) } else none
     | _ => none
@@ -692,5 +710,188 @@ def step (D : Decisions) (s : St) : Ev → Option St
     | none => none
 
 def sys (D : Decisions) (maxFd : Int) : Sys St Ev := { init := init maxFd, step := step D }
+
+/-- KernelSpec, the part that is a hypothesis on the kernel's answers rather than a guard of the
+    model: a call on a descriptor that is not open fails with EBADF -/
+def kernelOk (s : St) : Ev → Bool
+  | .sys f fd r =>
+    (match s.pc f with
+     | .doSys c => c.op == .socket      -- socket() takes no descriptor
+     | _ => false) || s.isOpen fd || r == .err EBADF
+  | _ => true
+
+/-- the runs in which the kernel behaves as `kernelOk` says (a sub-system of `sys`) -/
+def sysK (D : Decisions) (maxFd : Int) : Sys St Ev :=
+  { init := init maxFd, step := fun s e => if kernelOk s e then step D s e else none }
+
+/-! ### log decoding -/
+
+def opOfName (name : String) (n : Int) : Option Op :=
+  match name with
+  | "read" => some .read | "readv" => some .readv | "recv" => some .recv
+  | "recvfrom" => some .recvfrom | "recvmsg" => some .recvmsg
+  | "write" => some .write | "writev" => some .writev | "send" => some .send
+  | "sendto" => some .sendto | "sendmsg" => some .sendmsg
+  | "accept" => some .accept | "connect" => some .connect | "close" => some .close
+  | "fcntl_nb" => some .fcntlNb | "fcntl_nbo" => some (.fcntlSet true) | "fcntl_bl" => some (.fcntlSet false)
+  | "fcntl_getfl" => some .fcntlGet
+  | "ioctl_fionbio" => some (.ioctlNbio (n != 0))
+  | "socket" => some .socket | "socketpair" => some .socketpair | "pipe" => some .pipe
+  | _ => none
+
+def resOf (r : Int) (e : Nat) : Res := if r < 0 then .err e else .ok r.toNat
+
+/-- `@F17` ↦ 17, `0` ↦ 0 -/
+def fibOf (s : String) : Option Nat :=
+  if s = "0" then some 0
+  else if s.startsWith "@F" then (s.drop 2).toString.toNat?
+  else none
+
+def scrOf (s : String) : Option Int :=
+  if s.startsWith "@F" then ((s.drop 2).toString.toNat?).map (fun n => (n : Int)) else s.toInt?
+
+/-- split `name+off/size` -/
+def cellParts (c : String) : String × Nat × Option Nat :=
+  let (c1, size) := match c.splitOn "/" with
+    | [a, b] => (a, b.toNat?)
+    | _ => (c, none)
+  match c1.splitOn "+" with
+  | [a, b] => (a, b.toNat?.getD 0, size)
+  | _ => (c1, 0, size)
+
+/-- descriptor of a `W…` cell name: `W5` ↦ 5, `Wlo` ↦ −1, `Whi3` ↦ maxFd + 3 -/
+def wFd (maxFd : Int) (nm : String) : Option Int :=
+  if nm = "Wlo" then some (-1)
+  else if nm.startsWith "Whi" then ((nm.drop 3).toString.toNat?).map (fun j => maxFd + (j : Int))
+  else if nm.startsWith "W" then ((nm.drop 1).toString.toNat?).map (fun j => (j : Int))
+  else none
+
+/-- descriptor of a flags byte: `FI<k>` + offset; the guard words just outside the array -/
+def fiFd (maxFd : Int) (nm : String) (off : Nat) : Option Int :=
+  if nm = "FIlo" then some ((off : Int) - 8)
+  else if nm = "FIhi" then some ((maxFd + 7) / 8 * 8 + (off : Int))
+  else if nm = "FIhi2" then some ((maxFd + 7) / 8 * 8 + 8 + (off : Int))
+  else if nm.startsWith "FI" then ((nm.drop 2).toString.toNat?).map (fun k => (8 * k + off : Nat))
+  else none
+
+def schedulerFuncs : List String :=
+  ["fiber_manager_yield", "fiber_scheduler_next", "fiber_manager_switch_to",
+   "fiber_manager_do_maintenance", "fiber_mark_completed", "fiber_destroy", "fiber_manager_schedule",
+   "fiber_scheduler_schedule", "fiber_scheduler_load_balance", "fiber_manager_set_and_wait",
+   "fiber_manager_clear_or_wait", "fiber_join", "fiber_context_init", "fiber_context_destroy"]
+
+def skipKinds : List String :=
+  ["switch", "fcreate", "fdestroy", "rqpush", "rqpop", "rqsteal", "relax", "fence"]
+
+def ofRaw (maxFd : Int) (r : RawEv) : Option (Option Ev) :=
+  let f := r.fiber
+  if skipKinds.contains r.kind then some none else
+  match r.kind, r.args with
+  | "note", "call" :: name :: fd :: n :: dw :: _ =>
+    if name = "shutdown" then some none else do
+      let fd ← fd.toInt?; let n ← n.toInt?
+      let op ← opOfName name n
+      pure (some (.call f { op := op, fd := fd, dw := dw = "1" }))
+  | "note", ["ret", name, rv, e] =>
+    if name = "shutdown" then some none else do
+      let rv ← rv.toInt?; let e ← e.toNat?
+      let op ← opOfName name (if name = "ioctl_fionbio" then 0 else 0)
+      pure (some (.ret f op (resOf rv e)))
+  | "note", "sys" :: name :: rest =>
+    match name, rest with
+    | "socketpair", [a, b, rv, e] | "pipe", [a, b, rv, e] => do
+      let a ← a.toInt?; let b ← b.toInt?; let rv ← rv.toInt?; let e ← e.toNat?
+      pure (some (.sys2 f a b (resOf rv e)))
+    | "fcntl", [fd, rv, e, code] => do
+      let fd ← fd.toInt?; let rv ← rv.toInt?; let e ← e.toNat?; let code ← code.toNat?
+      -- only F_GETFL (3) / F_SETFL (4) belong to the modelled calls (the harness also uses F_SETPIPE_SZ)
+      if code / 100000 ≠ 3 ∧ code / 100000 ≠ 4 then pure none else
+      if r.func = "setup_socket" ∨ r.func = "pipe" then pure (some (.sysCtl f fd (resOf rv e)))
+      else pure (some (.sys f fd (resOf rv e)))
+    | _, [fd, rv, e] => do
+      let fd ← fd.toInt?; let rv ← rv.toInt?; let e ← e.toNat?
+      pure (some (.sys f fd (resOf rv e)))
+    | _, _ => none
+  | "note", ["epctl", op, fd, mask, rv, _] =>
+    if r.func = "fiber_event_init" then some none else do
+      let fd ← fd.toInt?; let mask ← mask.toNat?; let rv ← rv.toInt?
+      let o ← (if op = "ADD" then some 0 else if op = "MOD" then some 1 else if op = "DEL" then some 2 else none)
+      pure (some (.ctl f o fd mask (rv == 0)))
+  | "note", _ => some none
+  | k, cell :: vals =>
+    let (nm, off, _size) := cellParts cell
+    match nm.splitOn "." with
+    | [w, "ea"] => do
+      let fd ← wFd maxFd w
+      match k, off, _size, vals with
+      | "r", 0, some 4, [v] => do let v ← v.toNat?; pure (some (.rEvents f fd v))
+      | "w", 0, some 4, [v] => do let v ← v.toNat?; pure (some (.wEvents f fd v))
+      | "r", 4, some 4, [v] => do let v ← v.toNat?; pure (some (.rAdded f fd v))
+      | "w", 4, some 4, [v] => do let v ← v.toNat?; pure (some (.wAdded f fd v))
+      | "r", 0, none, [v] => do let v ← v.toNat?; pure (some (.rBoth f fd (v % 4294967296) (v / 4294967296)))
+      | _, _, _, _ => none
+    | [w, "lock"] => do
+      let fd ← wFd maxFd w
+      match k, off, vals with
+      | "fadd", 4, [old, "1", _] => do let o ← old.toNat?; pure (some (.lkTake f fd o))
+      | "ld", 0, [v, _] => do
+        let v ← v.toNat?
+        if r.func = "fiber_spinlock_unlock" then pure (some (.ulLoad f fd v)) else pure (some (.lkPoll f fd v))
+      | "st", 0, [v, _] => do let v ← v.toNat?; pure (some (.ulStore f fd v))
+      | _, _, _ => none
+    | [w, "waiters"] => do
+      let fd ← wFd maxFd w
+      match k, vals with
+      | "r", [v] => do let h ← fibOf v; pure (some (.rWaiters f fd h))
+      | "w", [v] => do let h ← fibOf v; pure (some (.wWaiters f fd h))
+      | _, _ => none
+    | [fb, "scratch"] => do
+      let g ← (if fb.startsWith "F" then (fb.drop 1).toString.toNat? else none)
+      match k, vals with
+      | "r", [v] => do let v ← scrOf v; pure (some (.rScr f g v))
+      | "w", [v] => do let v ← scrOf v; pure (some (.wScr f g v))
+      | _, _ => none
+    | [fb, "state"] =>
+      if schedulerFuncs.contains r.func then some none else do
+        let g ← (if fb.startsWith "F" then (fb.drop 1).toString.toNat? else none)
+        match k, vals with
+        | "w", [v] => do let v ← v.toNat?; pure (some (.wSt f g v))
+        | _, _ => none
+    | [fi] =>
+      if fi.startsWith "FI" then do
+        let fd ← fiFd maxFd fi off
+        match k, vals with
+        | "ld", [v, _] => do let v ← v.toNat?; pure (some (.fLoad f fd v))
+        | "for", [old, m, _] => do let o ← old.toNat?; let m ← m.toNat?; pure (some (.fOr f fd o m))
+        | "fand", [old, m, _] => do let o ← old.toNat?; let m ← m.toNat?; pure (some (.fAnd f fd o m))
+        | "st", [v, _] => do let v ← v.toNat?; pure (some (.fStore f fd v))
+        | _, _ => none
+      else none
+    | _ => none
+  | _, _ => none
+
+/-- the `ioctl_fionbio` return note does not repeat the argument: take it from the pending call -/
+def fixRet (s : St) : Ev → Ev
+  | .ret f op r =>
+    match op, s.pc f with
+    | .ioctlNbio _, .retv c _ => .ret f c.op r
+    | _, _ => .ret f op r
+  | e => e
+
+def sysV (D : Decisions) (maxFd : Int) : Sys St Ev :=
+  { init := init maxFd, step := fun s e => (sysK D maxFd).step s (fixRet s e) }
+
+def drive (lines : List String) : IO UInt32 := do
+  let args := initArgs lines            -- io <kthreads> <max_fd> <event max_fd> <B> <W> <epoll fd>
+  let maxFd : Int := (args[2]?.bind String.toInt?).getD 0
+  let evMax : Int := (args[3]?.bind String.toInt?).getD (-1)
+  let fb := (args[4]?.bind String.toNat?).getD 0
+  let fw := (args[5]?.bind String.toNat?).getD 0
+  if args.head? ≠ some "io" ∨ maxFd ≠ evMax ∨ fb ≠ FB ∨ fw ≠ FW ∨ Gen.Io.flagBlocking ≠ FB ∨ Gen.Io.flagWaitable ≠ FW then
+    report "IoShim" (0, some (0, "init", "init note / flag constants do not match the model")) none
+  else
+    let body := lines.filter (fun l => !isInit l)
+    let v := validateP (sysV codeDecisions maxFd) (ofRaw maxFd) body
+    report "IoShim" v none
 
 end LibfiberVerif.IoShim
